@@ -43,3 +43,22 @@ claim("C16", "DESIGN.md §2 C16",
       "are swept completely).",
       "Plain parse uses the generated pb2 classes; don't-care classes (zero scalars, excess precision, reserved name characters) are "
       "listed in the evidence assumptions; publishing from a file path is not exercised.")
+claim("C13", "DESIGN.md §2 C13",
+      "property-based testing of op histories (encrypt/save/reload/unlock/lock/decrypt, pack/unpack) against a model + exhaustive crash-point enumeration of every file-system operation of a save through a counting fake file layer",
+      "Generated wallets (seeded / xprv-only / watch-only / single-key accounts, channel keys) and passwords (ASCII, astral, combining, "
+      "long; wrong variants: prefix, case, NFC/NFD, appended) run through histories; after every op public parts, restored secrets, "
+      "absence of plaintext seed/xprv/key hex in every file written, and refusal + no state change on wrong passwords are checked. "
+      "For the atomic-save clause every operation index of WalletStorage.write / Wallet.save observed in a dry run is crashed "
+      "(and every write after 1, L/2, L-1 bytes) and the surviving file must equal the complete old or new JSON: fault enumeration "
+      "per generated wallet pair, exploration over wallets.",
+      "Process death only (page cache survives, no power-loss model); the fake file layer sees the names lbry.wallet.wallet uses "
+      "(open, os.fsync/rename/replace/remove/chmod/stat/path.exists).")
+claim("C08", "DESIGN.md §2 C08",
+      "property-based testing: exhaustive enumeration of all (block size 1..64, index) proofs with every position-bit / branch-element mutation + Hypothesis chains with 24 mutation kinds, against an independent Merkle implementation",
+      "All 2080 (block size, tx index) pairs for blocks of 1..64 transactions are enumerated with their genuine proof, every side-choosing "
+      "position bit flipped, one bit flipped in every branch element, and shortened / lengthened branches; generated cases add chains "
+      "of stored headers, real serialised transactions and 24 mutation kinds (other height, unknown height, height<=0, tx byte changed, "
+      "reply without merkle), delivered as argument and through a stub network. Oracle: is_verified <=> reference fold of the supplied "
+      "branch/position equals the root read from the stored header bytes and 0 < height < stored headers.",
+      "Reference Merkle code self-tested on Bitcoin blocks 170 and 100000; side-neutral mutations are a stated don't-care; headers are "
+      "written into the store directly (their validation is C07).")
